@@ -403,4 +403,15 @@ Section Run.
     end.
 End Run.
 
+(* PybtexCommandLine.run (pybtex/__main__.py:83-116), BibTeX engine: `pybtex [-s style] [-f format] [--min-crossrefs n] file`
+   -- '.aux' is appended unless the name already ends in it (posixpath.splitext), everything else is handed on unchanged *)
+Definition s_aux : str := Eval vm_compute in s2l ".aux".
+Definition cli_aux_name (f : str) : str :=
+  if str_eqb (skipn (length (splitext_root f)) f) s_aux then f else f ++ s_aux.
+
 Definition written_text (o : outcome) : list (str * str) := fs_texts (o_fs o).
+
+Definition command_line (fmt_name : str -> str -> res str) (cw : char -> Z) (fuel : nat) (fs : fsys) (filename : str)
+           (style : option str) (bib_format : option nat) (min_crossrefs : option Z) : res outcome :=
+  make_bibliography fmt_name cw fuel fs (cli_aux_name filename) style bib_format
+                    (match min_crossrefs with Some m => m | None => 2%Z end).
